@@ -339,5 +339,10 @@ func genFsCase(r *Rng, out *outFiles) {
 			probe("directory "+d+" cannot be read", "", d, errFS)
 		}
 	}
-	out.put(fmt.Sprintf("fs %s %s", encStr(sub), strings.Join(fe, "|")), line, verdict("C19", c19), verdict("C08", panicOnly(strings.TrimPrefix(line, "ERR "))))
+	// "files are resolved by name across the whole manager" (C07): the name of a file is its relative path
+	c07 := ""
+	if strings.Contains(c19, "not registered under its relative path") || strings.Contains(c19, "is not registered") || strings.Contains(c19, "is missing from Files()") {
+		c07 = c19
+	}
+	out.put(fmt.Sprintf("fs %s %s", encStr(sub), strings.Join(fe, "|")), line, verdict("C19", c19), verdict("C07", c07), verdict("C08", panicOnly(strings.TrimPrefix(line, "ERR "))))
 }
